@@ -7,15 +7,17 @@
 import NngModel.Proofs.LifeJudgeFire
 namespace Nng.LifeModel
 open Nng.Life Nng.Generated
-open Nng.LifeSpec (J JPipe JEp JSock upd put KU onOut opConnEp)
+open Nng.LifeSpec (J JPipe JEp JSock upd put KU onOut opConnEp isRace tol)
 
 def jReg (ei sk : Nat) (m : Nat) (c : Bool) : JPipe :=
-  { ep := ei, sock := sk, preReg := m &&& 1 != 0, anyReg := m != 0, closedInPre := c && m &&& 1 != 0 }
+  { ep := ei, sock := sk, preReg := m &&& 1 != 0, anyReg := m != 0, closedInPre := c && m &&& 1 != 0,
+    preWait := m &&& 1 != 0 }
 
-theorem onOut_pipe (op : LOp) (j : J) (p e : Nat) (x : JEp) (hc : opConnEp op = some e) (hx : j.eps.lookup e = some x)
+theorem onOut_pipe (op : LOp) (hnr : isRace op = false) (j : J) (p e : Nat) (x : JEp) (hc : opConnEp op = some e)
+    (hx : j.eps.lookup e = some x)
     (h2 : x.dialer = true → ∀ kq ∈ j.pipes, (kq.2.ep == e && !kq.2.lost) = false) :
     onOut op j (.pipe p) = { j with pipes := put j.pipes p (jReg e x.sock (j.sock x.sock).mask (j.sock x.sock).cip) } := by
-  simp only [onOut, hc, hx]
+  simp only [onOut, hc, hx, tol_of_not_race op hnr, Bool.not_false, Bool.and_true]
   rw [if_neg]
   · rfl
   · intro hh
@@ -26,15 +28,23 @@ theorem onOut_pipe (op : LOp) (j : J) (p e : Nat) (x : JEp) (hc : opConnEp op = 
     simp only [hk.1, hk.2, Bool.and_self] at this
     cases this
 
-theorem onOut_parm (op : LOp) (j : J) (p : Nat) (q : JPipe) (hq : j.pipes.lookup p = some q) (hc : q.closedInPre = false) :
-    onOut op j (.parm p) = j := by
-  simp only [onOut, hq, hc, Bool.false_eq_true, if_false]
+/-- what `parm p` does to the judge's record of the pipe: started; ADD_POST is owed if registered now -/
+def postDue (m : Nat) (q : JPipe) : Bool :=
+  !q.started && !q.lost && !q.unsure && q.anyReg && m &&& 2 != 0 && !q.evs.contains .post
+
+def jStart (due : Bool) (q : JPipe) : JPipe := { q with started := true, postWait := q.postWait || due }
+
+theorem onOut_parm (op : LOp) (j : J) (p : Nat) (q : JPipe) (hq : j.pipes.lookup p = some q) (hc : q.closedInPre = false)
+    (hw : q.preWait = false) :
+    onOut op j (.parm p) = { j with pipes := upd j.pipes p (jStart (postDue (j.sock q.sock).mask q)) } := by
+  simp only [onOut, hq, hc, hw, Bool.false_eq_true, if_false]
+  rfl
 
 end Nng.LifeModel
 
 namespace Nng.LifeModel
 open Nng.Life Nng.Generated
-open Nng.LifeSpec (J JPipe JEp JSock upd put KU onOut opConnEp)
+open Nng.LifeSpec (J JPipe JEp JSock upd put KU onOut opConnEp isRace tol)
 
 /-- events about a pipe that is already registered -/
 def isPipeEv : LOut → Bool
@@ -83,7 +93,7 @@ end Nng.LifeModel
 
 namespace Nng.LifeModel
 open Nng.Life Nng.Generated
-open Nng.LifeSpec (J JPipe JEp JSock upd put KU onOut opConnEp)
+open Nng.LifeSpec (J JPipe JEp JSock upd put KU onOut opConnEp isRace tol)
 
 theorem pre_run (mask i ei sk : Nat) :
     runCb mask .pre ({ idx := i, ep := ei, sock := sk } : Pipe) =
@@ -135,10 +145,10 @@ end Nng.LifeSpec
 
 namespace Nng.LifeModel
 open Nng.Life Nng.Generated
-open Nng.LifeSpec (J JPipe JEp JSock upd put KU onOut opConnEp)
+open Nng.LifeSpec (J JPipe JEp JSock upd put KU onOut opConnEp isRace tol)
 
 def jRegE (ei sk m : Nat) (c : Bool) : JPipe :=
-  { jReg ei sk m c with evs := if m &&& 1 != 0 then [.pre] else [] }
+  { jReg ei sk m c with evs := if m &&& 1 != 0 then [.pre] else [], preWait := false }
 
 theorem prefix_fold (op : LOp) (j : J) (i ei sk mask : Nat) (cip : Bool) (hcbf : (j.sock sk).closedBefore = false)
     (hfresh : ∀ kq ∈ j.pipes, kq.1 ≠ i) :
@@ -150,24 +160,56 @@ theorem prefix_fold (op : LOp) (j : J) (i ei sk mask : Nat) (cip : Bool) (hcbf :
     have hl : ({ j with pipes := j.pipes ++ [(i, jReg ei sk mask cip)] } : J).pipes.lookup i = some (jReg ei sk mask cip) := by
       simp only [Nng.LifeSpec.lookup_append, Nng.LifeSpec.lookup_fresh j.pipes i hfresh]
       simp
-    rw [onOut_pev op _ i .pre _ hl (by rfl) (by rfl) (by rfl) (by rfl) (by exact hcbf)]
+    rw [onOut_pev op _ i .pre _ hl (by rfl) (by rfl) (by rfl) (by rfl) (by rfl) (by exact hcbf)]
     simp only [Nng.LifeSpec.upd_append, Nng.LifeSpec.upd_fresh j.pipes i _ hfresh]
-    simp [upd, jRegE, jReg, hb, -Nat.and_one_is_mod]
+    simp [upd, jRegE, jReg, jEv, hb, -Nat.and_one_is_mod]
   · simp only [hb, if_false, List.foldl_nil, Bool.false_eq_true]
     simp [jRegE, jReg, hb, -Nat.and_one_is_mod]
 
 theorem jp_preP (mask i ei sk : Nat) (cip c cl s : Bool) (hc : c = (cip && mask &&& 1 != 0)) :
-    jp { preP mask i ei sk with cip := c, closed := cl, started := s } = jRegE ei sk mask cip := by
+    jp { preP mask i ei sk with cip := c, closed := cl, started := s } = { jRegE ei sk mask cip with started := s } := by
   subst hc
   by_cases h0 : mask = 0
   · subst h0; simp [jp, preP, jRegE, jReg]
   · simp [jp, preP, jRegE, jReg, h0, -Nat.and_one_is_mod]
 
+/-- nni_pipe_run_cb(ADD_POST) on the pipe that just got through ADD_PRE -/
+theorem post_run (mask i ei sk : Nat) :
+    runCb mask .post { preP mask i ei sk with started := true } =
+      if mask = 0 then ({ preP mask i ei sk with started := true }, false)
+      else if mask &&& 2 = 0 then ({ preP mask i ei sk with started := true, last := 2 }, false)
+      else ({ preP mask i ei sk with started := true, last := 2, evs := (preP mask i ei sk).evs ++ [.post] }, true) := by
+  by_cases h0 : mask = 0
+  · subst h0; simp [runCb]
+  · by_cases h2 : mask &&& 2 = 0
+    · simp [runCb, preP, h0, h2, evBit, PEv.rank]
+    · simp [runCb, preP, h0, h2, evBit, PEv.rank]
+
+/-- the judge's record after `pipe`, ADD_PRE (if registered), `parm` and ADD_POST (if registered) -/
+theorem jp_started (mask i ei sk : Nat) (cip : Bool) (hcf : (cip && mask &&& 1 != 0) = false) :
+    jp (runCb mask .post { preP mask i ei sk with started := true }).1 =
+      (if (runCb mask .post { preP mask i ei sk with started := true }).2 then jEv .post else id)
+        (jStart (postDue mask (jRegE ei sk mask cip)) (jRegE ei sk mask cip)) := by
+  rw [post_run]
+  by_cases h0 : mask = 0
+  · subst h0; simp [jp, preP, jRegE, jReg, jStart, postDue] at hcf ⊢
+  · by_cases h2 : mask &&& 2 = 0
+    · simp only [h0, h2, if_false, if_true, Bool.false_eq_true, id]
+      by_cases h1 : mask &&& 1 = 0
+      · simp [jp, preP, jRegE, jReg, jStart, postDue, h0, h1, h2, -Nat.and_one_is_mod]
+      · have hc : cip = false := by simpa [h1, -Nat.and_one_is_mod] using hcf
+        simp [jp, preP, jRegE, jReg, jStart, postDue, h0, h1, h2, hc, -Nat.and_one_is_mod]
+    · simp only [h0, h2, if_false, if_true]
+      by_cases h1 : mask &&& 1 = 0
+      · simp [jp, preP, jRegE, jReg, jStart, postDue, jEv, h0, h1, h2, -Nat.and_one_is_mod]
+      · have hc : cip = false := by simpa [h1, -Nat.and_one_is_mod] using hcf
+        simp [jp, preP, jRegE, jReg, jStart, postDue, jEv, h0, h1, h2, hc, -Nat.and_one_is_mod]
+
 end Nng.LifeModel
 
 namespace Nng.LifeModel
 open Nng.Life Nng.Generated
-open Nng.LifeSpec (J JPipe JEp JSock upd put KU onOut opConnEp)
+open Nng.LifeSpec (J JPipe JEp JSock upd put KU onOut opConnEp isRace tol)
 
 theorem PipesRel_append {st : State} {j : J} (hr : PipesRel st j) (pA : Pipe) (q : JPipe) (hq : jp pA = q) :
     j.pipes ++ [(pA.idx, q)] = (st.pipes ++ [pA]).map fun p => (p.idx, jp p) := by
@@ -191,7 +233,7 @@ theorem Mid_setSock {S : SelE} {st : State} {j : J} (h : Mid S st j) (s : Nat) (
   · intro s'
     exact SR_congr (h.socks s') (hk s').1 (hk s').2.1 (hk s').2.2.1 (hk s').2.2.2
 
-theorem startPipe_sim (op : LOp) (st : State) (j : J) (ei sk peer : Nat) (x : JEp)
+theorem startPipe_sim (op : LOp) (hnr : isRace op = false) (st : State) (j : J) (ei sk peer : Nat) (x : JEp)
     (hW : ∀ q : Pipe, q.idx = st.pipes.length → q.ep = ei → q.sock = sk → q.reaped = false →
       W { st with pipes := st.pipes ++ [q] })
     (hpinv : PipesInv st) (hlso : LiveSockOpen st) (hso : sockOpen (st.socks sk))
@@ -212,7 +254,7 @@ theorem startPipe_sim (op : LOp) (st : State) (j : J) (ei sk peer : Nat) (x : JE
     exact Nat.ne_of_lt (hidxP.lt hp)
   have hp0 : onOut op j (.pipe st.pipes.length) =
       { j with pipes := j.pipes ++ [(st.pipes.length, jReg ei sk (st.socks sk).mask (st.socks sk).cip)] } := by
-    rw [onOut_pipe op j _ ei x hconn hx]
+    rw [onOut_pipe op hnr j _ ei x hconn hx]
     · rw [hxs, hmask, hcip, Nng.LifeSpec.put_fresh _ _ _ hfresh]
     · intro hd kq hkq
       rw [hpipes] at hkq
@@ -271,7 +313,7 @@ theorem startPipe_sim (op : LOp) (st : State) (j : J) (ei sk peer : Nat) (x : JE
           · intro hr; cases hr)
         (jp_preP _ _ _ _ _ _ _ _ (by rw [hc, hb]; rfl))
       have hcb' : CB { j with pipes := j.pipes ++ [(st.pipes.length, jRegE ei sk (st.socks sk).mask (st.socks sk).cip)] } := hcb
-      obtain ⟨h1, s1⟩ := killPipe_sim noSel op _ _ st.pipes.length hm hcb'
+      obtain ⟨h1, s1⟩ := killPipe_sim noSel op hnr _ _ st.pipes.length hm hcb'
       exact ⟨h1, SameJ.trans ⟨rfl, rfl, rfl, rfl, rfl⟩ s1⟩
   · rw [if_neg hb1]
     have hcf : ((st.socks sk).cip && (st.socks sk).mask &&& 1 != 0) = false := by
@@ -292,12 +334,10 @@ theorem startPipe_sim (op : LOp) (st : State) (j : J) (ei sk peer : Nat) (x : JE
         have hm := hmidA (preP (st.socks sk).mask st.pipes.length ei sk) rfl rfl rfl rfl hpi
           (jp_preP _ _ _ _ _ false false false (by rw [hcf]))
         have hcb' : CB { j with pipes := j.pipes ++ [(st.pipes.length, jRegE ei sk (st.socks sk).mask (st.socks sk).cip)] } := hcb
-        obtain ⟨h1, s1⟩ := killPipe_sim noSel op _ _ st.pipes.length hm hcb'
+        obtain ⟨h1, s1⟩ := killPipe_sim noSel op hnr _ _ st.pipes.length hm hcb'
         exact ⟨h1, SameJ.trans ⟨rfl, rfl, rfl, rfl, rfl⟩ s1⟩
     · -- started
       rw [if_neg hb2]
-      have hjS : jp { preP (st.socks sk).mask st.pipes.length ei sk with started := true } =
-          jRegE ei sk (st.socks sk).mask (st.socks sk).cip := jp_preP _ _ _ _ _ false false true (by rw [hcf])
       have hpost := post_step (st.socks sk).mask _ hpi hlast1 rfl rfl hnopost hnorem
       simp only at hpost
       have hfr2 := runCb_frame (st.socks sk).mask .post { preP (st.socks sk).mask st.pipes.length ei sk with started := true }
@@ -321,46 +361,55 @@ theorem startPipe_sim (op : LOp) (st : State) (j : J) (ei sk peer : Nat) (x : JE
           simp only [Nng.LifeSpec.lookup_append, Nng.LifeSpec.lookup_fresh j.pipes _ hfresh]
           simp
         simp only [List.foldl_cons, List.foldl_nil]
-        rw [onOut_parm op _ _ _ hlA (by exact hcf)]
+        rw [onOut_parm op _ _ _ hlA (by exact hcf) (by rfl)]
+        have hmk : (({ j with pipes := j.pipes ++ [(st.pipes.length, jRegE ei sk (st.socks sk).mask (st.socks sk).cip)] } : J).sock
+            (jRegE ei sk (st.socks sk).mask (st.socks sk).cip).sock).mask = (st.socks sk).mask := hmask
+        rw [hmk]
+        simp only [Nng.LifeSpec.upd_append, Nng.LifeSpec.upd_fresh j.pipes _ _ hfresh]
+        have hu1 : ∀ (f : JPipe → JPipe) (q : JPipe), upd [(st.pipes.length, q)] st.pipes.length f = [(st.pipes.length, f q)] := by
+          intro f q; simp [upd]
+        rw [hu1]
         -- the final judge state
+        have hjs := jp_started (st.socks sk).mask st.pipes.length ei sk (st.socks sk).cip hcf
         have hfin : (if (runCb (st.socks sk).mask .post { preP (st.socks sk).mask st.pipes.length ei sk with started := true }).2
               then [LOut.pev st.pipes.length .post] else []).foldl (onOut op)
-              { j with pipes := j.pipes ++ [(st.pipes.length, jRegE ei sk (st.socks sk).mask (st.socks sk).cip)] } =
+              { j with pipes := j.pipes ++ [(st.pipes.length,
+                jStart (postDue (st.socks sk).mask (jRegE ei sk (st.socks sk).mask (st.socks sk).cip))
+                  (jRegE ei sk (st.socks sk).mask (st.socks sk).cip))] } =
             { j with pipes := j.pipes ++ [(st.pipes.length,
               jp (runCb (st.socks sk).mask .post { preP (st.socks sk).mask st.pipes.length ei sk with started := true }).1)] } := by
-          rcases runCb_cases (st.socks sk).mask .post { preP (st.socks sk).mask st.pipes.length ei sk with started := true }
-            with h | ⟨hlt, hm', h0, h | h⟩
-          · rw [h]; simp only [Bool.false_eq_true, if_false, List.foldl_nil, hjS]
-          · obtain ⟨h, _⟩ := h
-            have hl0 : (preP (st.socks sk).mask st.pipes.length ei sk).last ≠ 0 := by
-              intro h0'; have := h0 h0'; simp at this
-            rw [h]; simp only [Bool.false_eq_true, if_false, List.foldl_nil]
-            rw [← hjS]
-            simp [jp, hl0]
-          · obtain ⟨h, _⟩ := h
-            have hl0 : (preP (st.socks sk).mask st.pipes.length ei sk).last ≠ 0 := by
-              intro h0'; have := h0 h0'; simp at this
-            rw [h]; simp only [if_true, List.foldl_cons, List.foldl_nil]
-            rw [onOut_pev op _ _ .post _ hlA]
-            · simp only [Nng.LifeSpec.upd_append, Nng.LifeSpec.upd_fresh j.pipes _ _ hfresh]
-              rw [← hjS]
-              simp [upd, jp, hl0]
+          rw [hjs]
+          cases hr2 : (runCb (st.socks sk).mask .post { preP (st.socks sk).mask st.pipes.length ei sk with started := true }).2 with
+          | false => simp only [Bool.false_eq_true, if_false, List.foldl_nil, id]
+          | true =>
+            simp only [if_true, List.foldl_cons, List.foldl_nil]
+            have hlB : ({ j with pipes := j.pipes ++ [(st.pipes.length,
+                jStart (postDue (st.socks sk).mask (jRegE ei sk (st.socks sk).mask (st.socks sk).cip))
+                  (jRegE ei sk (st.socks sk).mask (st.socks sk).cip))] } : J).pipes.lookup st.pipes.length =
+                some (jStart (postDue (st.socks sk).mask (jRegE ei sk (st.socks sk).mask (st.socks sk).cip))
+                  (jRegE ei sk (st.socks sk).mask (st.socks sk).cip)) := by
+              simp only [Nng.LifeSpec.lookup_append, Nng.LifeSpec.lookup_fresh j.pipes _ hfresh]
+              simp
+            rw [onOut_pev op _ _ .post _ hlB]
+            · simp only [Nng.LifeSpec.upd_append, Nng.LifeSpec.upd_fresh j.pipes _ _ hfresh, hu1]
             · show (jRegE ei sk (st.socks sk).mask (st.socks sk).cip).evs.contains PEv.post = false
-              rw [← hjS]; simpa [jp] using hnopost
-            · rw [← hjS]
-              show (preP (st.socks sk).mask st.pipes.length ei sk).evs.any (fun e => e.rank ≥ PEv.post.rank) = false
-              apply List.any_eq_false.mpr
-              intro e he; have := hpi.bounded e he; simp; omega
-            · rw [← hjS]
-              show (PEv.post != PEv.pre && !(preP (st.socks sk).mask st.pipes.length ei sk).evs.contains PEv.pre &&
-                ((preP (st.socks sk).mask st.pipes.length ei sk).preDue ||
-                  !((preP (st.socks sk).mask st.pipes.length ei sk).last != 0))) = false
-              cases hpd : (preP (st.socks sk).mask st.pipes.length ei sk).preDue with
-              | false => simp [hl0]
-              | true =>
-                have := hpi.pre_due hpd (by omega)
-                simp [this]
+              unfold jRegE; simp only; split <;> rfl
+            · show (jRegE ei sk (st.socks sk).mask (st.socks sk).cip).evs.any (fun e => e.rank ≥ PEv.post.rank) = false
+              unfold jRegE; simp only; split <;> rfl
+            · show (PEv.post != PEv.pre && !(jRegE ei sk (st.socks sk).mask (st.socks sk).cip).evs.contains PEv.pre &&
+                (((st.socks sk).mask &&& 1 != 0 || !((st.socks sk).mask != 0)) && !false)) = false
+              have hm0 : (st.socks sk).mask ≠ 0 := by
+                intro h0
+                rw [post_run, if_pos h0] at hr2
+                cases hr2
+              unfold jRegE
+              by_cases h1 : ((st.socks sk).mask &&& 1 != 0) = true
+              · simp only [h1, if_true]; rfl
+              · simp only [h1, Bool.false_eq_true, if_false]
+                have h1' : ((st.socks sk).mask &&& 1 != 0) = false := by simpa using h1
+                simp [h1', hm0, -Nat.and_one_is_mod]
             · exact hcf
+            · rfl
             · exact hcbf
         rw [hfin]
         have hm := hmidG _ _ hfr2.1 hfr2.2.1 hfr2.2.2.1 hfr2.2.2.2 hpost.1 rfl
